@@ -1448,7 +1448,70 @@ pub const FRAGILE: &[&str] = &[
     "let h = x -> internal std.sql\nfrom t | filter (h a)",
     "from t | select `*`",
     "from albums | select {b, x} | append (from orders | select {b, x, end})",
+    // panics late, in the SQL backend, after the FROM/JOIN part has been written (S70)
+    "from t | join (from s | aggregate {count this}) true",
+    "from employees | join (from s | select {a + 1}) true",
+    "from albums | join (from orders | group k (aggregate {sum x})) (==k)",
 ];
+
+/// Dialects that differ in *how they quote* (always, with a backtick, extra keywords).
+const QUOTING: &[&str] = &[
+    "sql.snowflake",
+    "sql.mysql",
+    "sql.generic",
+    "sql.bigquery",
+    "sql.postgres",
+    "sql.clickhouse",
+    "sql.redshift",
+    "sql.snowflake",
+];
+
+/// What a host compiles right after a call that blew up: an ordinary query over the same
+/// tables, for a dialect that writes identifiers differently. Whatever the dead call left
+/// behind about those names (S70: a per-thread memo of quote styles, cleared on the normal
+/// path only) is what this call would trip over.
+fn panic_follow_up(src: &str, r: &mut Rng) -> Op {
+    let mut tables: Vec<String> = Vec::new();
+    let mut rest = src;
+    while let Some(p) = rest.find("from ") {
+        rest = &rest[p + 5..];
+        let name: String = rest.chars().take_while(|c| c.is_ascii_alphanumeric() || *c == '_').collect();
+        if !name.is_empty() && !tables.contains(&name) {
+            tables.push(name);
+        }
+    }
+    if tables.is_empty() {
+        tables.push("t".into());
+    }
+    let src = if tables.len() > 1 && r.below(2) == 0 {
+        format!("from {} | join {} (==id) | select {{{}.a, {}.b}}", tables[0], tables[1], tables[0], tables[1])
+    } else {
+        format!("from {} | select {{a, b}} | sort a", tables[0])
+    };
+    let mut opts = Opts::plain(*r.pick(QUOTING));
+    opts.sig = false;
+    Op::Compile { src, opts }
+}
+
+/// After a call that may panic, half of the time: give that call a dialect of the quoting
+/// set and append `panic_follow_up` (own PRNG stream; the rest of the plan is untouched).
+fn push_with_follow_up(calls: &mut Vec<Call>, mut c: Call, fr: &mut Rng, panickers: &[String]) {
+    let fragile = c
+        .op
+        .src()
+        .map(|s| FRAGILE.contains(&s) || panickers.iter().any(|p| p == s))
+        .unwrap_or(false);
+    if fragile && fr.below(2) == 0 {
+        if let Some(o) = c.op.opts_mut() {
+            o.target = fr.pick(QUOTING).to_string();
+        }
+        let follow = panic_follow_up(c.op.src().unwrap_or(""), fr);
+        calls.push(c);
+        calls.push(Call::plain(follow));
+    } else {
+        calls.push(c);
+    }
+}
 
 /// programs whose SQL differs between dialects (quoting, take, //, regex, dates)
 const DIALECT_SENSITIVE: &[&str] = &[
@@ -2117,6 +2180,7 @@ impl<'a> Gen<'a> {
         let fault_session = r.below(3) == 0;
         let mut threads: Vec<Vec<Call>> = Vec::new();
         let mut session_thread_used = false;
+        let mut fr = Rng::new(mix(s, 0xF0110));
         for t in 0..nthreads {
             let ncalls = r.range(1, 5);
             let mut calls = Vec::new();
@@ -2148,7 +2212,7 @@ impl<'a> Gen<'a> {
                 if session_here && r.below(2) == 0 {
                     c.session = true;
                 }
-                calls.push(c);
+                push_with_follow_up(&mut calls, c, &mut fr, panickers);
                 if fault_env && nthreads == 1 && r.below(4) == 0 {
                     let v = match r.below(3) {
                         0 => None,
@@ -2262,6 +2326,7 @@ impl<'a> Gen<'a> {
             None
         };
         let mut threads = Vec::new();
+        let mut fr = Rng::new(mix(s, 0xF0111));
         for t in 0..nthreads {
             let ncalls = r.range(1, 4);
             let mut calls = Vec::new();
@@ -2299,7 +2364,7 @@ impl<'a> Gen<'a> {
                 if fault_session && t == session_thread && r.below(2) == 0 {
                     c.session = true;
                 }
-                calls.push(c);
+                push_with_follow_up(&mut calls, c, &mut fr, panickers);
             }
             threads.push(calls);
         }
